@@ -8,6 +8,22 @@ PY = '/venv/bin/python'
 
 MC = 'model_checking'
 CHECKS = {
+    'C01': (MC, 'exhaustive enumeration of configurations x pending-event situations x guard valuations on the real Interpreter, compared with a reference selection function',
+            'Every legal configuration of every skeleton (<=5-6 states) is reached on the real interpreter; in each, every pending-event situation and every guard valuation with <=k true guards over probe transitions of every event/priority class is executed and compared with the documented selection (eventless first, inner-first, priority, guard visibility, event consumed iff used).',
+            'Trusts refmodel.select (30 lines written from docs/execution.rst). Event names are only compared for equality and priorities for order, so 3 classes each are complete for <=3 competing transitions.',
+            '§4 C01'),
+    'C03': (MC, 'explicit-state BFS over the real Interpreter with logging probes; per-step trace/order oracle against a reference prediction',
+            'Same state space as C02 with logging probes in every entry/exit/action fragment and two declaration orders: for every executed macro step the code log must equal the MacroStep lists, the micro steps must replay to the configuration, and the documented processing/exit/entry order must hold as constraints against the reference prediction.',
+            'Trusts refmodel.predict_step/complete; order between unrelated, non-sibling states is left unconstrained (don\'t care).',
+            '§4 C03'),
+    'C04': (MC, 'explicit-state BFS over the real Interpreter; every set of <=k simultaneously enabled transitions in every reachable configuration, expected error class from the reference model',
+            'In every reachable configuration of every skeleton (<=5-6 states, event-triggered and eventless saturated transitions) every pair/triple of simultaneously enabled transitions is executed; the reference classification (ok / NonDeterminismError / ConflictingTransitionsError) must be matched, and a failed step must leave configuration, code log, context and the pending event untouched.',
+            'Trusts refmodel.classify. A target equal to the source\'s own region state is a don\'t-care.',
+            '§4 C04'),
+    'C06': (MC, 'explicit-state BFS over (configuration, history memory) of the real Interpreter on all skeletons containing history states; restoration compared with reference snapshots',
+            'For every skeleton with a shallow/deep history state (<=6-7 states) the complete space of (configuration, recorded memory) is explored; each step that enters a history state must restore exactly the reference snapshot (direct child / whole sub-configuration / default memory), parents first, and end in the predicted configuration.',
+            'Trusts the snapshot definition (active descendants of the parent when its exit began).',
+            '§4 C06'),
     # id: (level, technique, text, note, design_ref)
     'C02': (MC, 'explicit-state BFS over the real Interpreter on all saturated skeleton charts; invariant on every state',
             'Complete breadth-first exploration of (configuration, history memory) for every statechart skeleton up to 6-7 states, '
